@@ -2391,6 +2391,9 @@ coap_io_do_epoll_lkd(coap_context_t *ctx, struct epoll_event *events, size_t nev
 #else /* COAP_EPOLL_SUPPORT */
   coap_tick_t now;
   size_t j;
+#if COAP_THREAD_SAFE
+  coap_session_t *pinned[COAP_MAX_EPOLL_EVENTS];
+#endif /* COAP_THREAD_SAFE */
 
   coap_lock_check_locked(ctx);
   coap_ticks(&now);
@@ -2400,11 +2403,13 @@ coap_io_do_epoll_lkd(coap_context_t *ctx, struct epoll_event *events, size_t nev
    * socket is in events[] until all events are done, so that another thread
    * cannot free one that has not been looked at yet.
    */
-  for (j = 0; j < nevents; j++) {
+  for (j = 0; j < nevents && j < COAP_MAX_EPOLL_EVENTS; j++) {
     coap_socket_t *sock = (coap_socket_t *)events[j].data.ptr;
 
-    if (sock && !sock->endpoint && sock->session)
-      coap_session_reference_lkd(sock->session);
+    /* Remember the session: sock->session is cleared when the socket closes */
+    pinned[j] = (sock && !sock->endpoint) ? sock->session : NULL;
+    if (pinned[j])
+      coap_session_reference_lkd(pinned[j]);
   }
 #endif /* COAP_THREAD_SAFE */
   for (j = 0; j < nevents; j++) {
@@ -2494,11 +2499,9 @@ coap_io_do_epoll_lkd(coap_context_t *ctx, struct epoll_event *events, size_t nev
     }
   }
 #if COAP_THREAD_SAFE
-  for (j = 0; j < nevents; j++) {
-    coap_socket_t *sock = (coap_socket_t *)events[j].data.ptr;
-
-    if (sock && !sock->endpoint && sock->session)
-      coap_session_release_lkd(sock->session);
+  for (j = 0; j < nevents && j < COAP_MAX_EPOLL_EVENTS; j++) {
+    if (pinned[j])
+      coap_session_release_lkd(pinned[j]);
   }
 #endif /* COAP_THREAD_SAFE */
   /* And update eptimerfd as to when to next trigger */
